@@ -1,5 +1,5 @@
 (* Properties/C02.v — ONLY property theorems of C02 and their Print Assumptions. *)
-From Precond Require Import Base.PyLib Base.QMat C06.Records C06.Ref C06.BlockProofs C02.Model C02.Proofs.
+From Precond Require Import Base.PyLib Base.QMat Base.PyFloat C06.Records C06.Ref C06.BlockProofs C02.Records C02.Ref C02.Model C02.Proofs.
 From Coq Require Import QArith.
 Open Scope Q_scope.
 
@@ -21,42 +21,57 @@ Theorem c02_blend_is_switch : forall (run : bool) (a b : Q),
 Proof. exact blend_is_switch. Qed.
 Print Assumptions c02_blend_is_switch.
 
-Theorem c02_state_independent_of_decoupled_lr : forall c step skip param grad pg s lr1 lr2,
-  c_decoupled_lr c = true ->
-  snd (transform (set_lr c lr1) step skip param grad pg s)
-  = snd (transform (set_lr c lr2) step skip param grad pg s).
+(* The following are about C02.Ref.transform_grad, the TRANSLATION of
+   distributed_shampoo._transform_grad (obligation GenEq_transform_grad re-checked on every run). *)
+Theorem c02_state_independent_of_decoupled_lr :
+  forall g b1 b2 lr1 lr2 wd dwd nes mavg de st clip eps step skip param grad pg sd sdm sm,
+  snd (transform_grad g b1 b2 lr1 wd dwd true nes mavg de st clip eps step skip param grad pg sd sdm sm)
+  = snd (transform_grad g b1 b2 lr2 wd dwd true nes mavg de st clip eps step skip param grad pg sd sdm sm).
 Proof. exact state_independent_of_decoupled_lr. Qed.
 Print Assumptions c02_state_independent_of_decoupled_lr.
 
-Theorem c02_update_linear_in_decoupled_lr : forall c step skip param grad pg s lr,
-  c_decoupled_lr c = true ->
-  exists nest, fst (transform (set_lr c lr) step skip param grad pg s) = vscale (- lr) nest /\
-               fst (transform (set_lr c 1) step skip param grad pg s) = vscale (- (1)) nest.
+Theorem c02_update_linear_in_decoupled_lr :
+  forall g b1 b2 lr wd dwd nes mavg de st clip eps step skip param grad pg sd sdm sm,
+  exists nest,
+    fst (transform_grad g b1 b2 lr wd dwd true nes mavg de st clip eps step skip param grad pg sd sdm sm)
+      = sv_mul (Qmult (Qopp (1 # 1)) lr) nest /\
+    fst (transform_grad g b1 b2 (1 # 1) wd dwd true nes mavg de st clip eps step skip param grad pg sd sdm sm)
+      = sv_mul (Qmult (Qopp (1 # 1)) (1 # 1)) nest.
 Proof. exact update_linear_in_decoupled_lr. Qed.
 Print Assumptions c02_update_linear_in_decoupled_lr.
 
-Theorem c02_warmup_ignores_preconditioner : forall c step skip param grad pg1 pg2 s,
-  (step < c_start c)%Z ->
-  fst (transform c step skip param grad pg1 s) = fst (transform c step skip param grad pg2 s).
-Proof. exact warmup_ignores_preconditioner. Qed.
-Print Assumptions c02_warmup_ignores_preconditioner.
-
-Theorem c02_skipped_ignores_preconditioner : forall c step param grad pg1 pg2 s,
-  transform c step true param grad pg1 s = transform c step true param grad pg2 s.
+Theorem c02_skipped_ignores_preconditioner :
+  forall g b1 b2 lr wd dwd dlr nes mavg de st clip eps step param grad pg1 pg2 sd sdm sm,
+  transform_grad g b1 b2 lr wd dwd dlr nes mavg de st clip eps step true param grad pg1 sd sdm sm
+  = transform_grad g b1 b2 lr wd dwd dlr nes mavg de st clip eps step true param grad pg2 sd sdm sm.
 Proof. exact skipped_ignores_preconditioner. Qed.
 Print Assumptions c02_skipped_ignores_preconditioner.
 
-Theorem c02_decoupled_wd_outside_momentum : forall c step skip param1 param2 grad pg s,
-  c_decoupled_wd c = true ->
-  snd (transform c step skip param1 grad pg s) = snd (transform c step skip param2 grad pg s).
+Theorem c02_decoupled_wd_outside_momentum :
+  forall g b1 b2 lr wd dlr nes mavg de st clip eps step skip param1 param2 grad pg sd sdm sm,
+  snd (transform_grad g b1 b2 lr wd true dlr nes mavg de st clip eps step skip param1 grad pg sd sdm sm)
+  = snd (transform_grad g b1 b2 lr wd true dlr nes mavg de st clip eps step skip param2 grad pg sd sdm sm).
 Proof. exact decoupled_wd_outside_momentum. Qed.
 Print Assumptions c02_decoupled_wd_outside_momentum.
 
-Theorem c02_no_wd_ignores_params : forall c step skip param1 param2 grad pg s,
-  c_wd c == 0 ->
-  transform c step skip param1 grad pg s = transform c step skip param2 grad pg s.
+Theorem c02_no_wd_ignores_params :
+  forall g b1 b2 lr wd dwd dlr nes mavg de st clip eps step skip param1 param2 grad pg sd sdm sm,
+  Qeq_bool wd (inject_Z 0) = true ->
+  transform_grad g b1 b2 lr wd dwd dlr nes mavg de st clip eps step skip param1 grad pg sd sdm sm
+  = transform_grad g b1 b2 lr wd dwd dlr nes mavg de st clip eps step skip param2 grad pg sd sdm sm.
 Proof. exact no_wd_ignores_params. Qed.
 Print Assumptions c02_no_wd_ignores_params.
+
+(* the warm-up blend  run*a + (1-run)*b  of the translated code is a switch in exact arithmetic *)
+Theorem c02_vblend_before_start : forall (a b : vec), length a = length b ->
+  veq (vv_add (sv_mul (b2q false) a) (sv_mul (Qminus (1 # 1) (b2q false)) b)) b.
+Proof. exact vblend_before_start. Qed.
+Print Assumptions c02_vblend_before_start.
+
+Theorem c02_vblend_from_start : forall (a b : vec), length a = length b ->
+  veq (vv_add (sv_mul (b2q true) a) (sv_mul (Qminus (1 # 1) (b2q true)) b)) a.
+Proof. exact vblend_from_start. Qed.
+Print Assumptions c02_vblend_from_start.
 
 Theorem c02_exponent_is_2k : forall c tsh, (c_expo_override c = 0)%Z ->
   exponent c tsh = (2 * num_preconditioned (c_ptype c)
